@@ -3,7 +3,7 @@ import StraxModel.Model.Basic
   T6 — labelled transition system of ONE `strax.Mailbox` (strax/mailbox.py) with its sender thread, its
   subscriber threads, worker threads completing futures and "killer" threads calling `Mailbox.kill`.
 
-  Granularity (DESIGN.md Appendix D, as realised by checks/lib/sched.py): one action = everything a thread
+  Granularity (action table in notes/C05.md, as realised by checks/lib/sched.py): one action = everything a thread
   does between two yield points of the cooperative scheduler.  Yield points are: the outermost acquire of
   the mailbox lock, `Condition.wait` (the thread is then *blocked* until a `notify_all` set its flag),
   `Future.result` on a future that is not done, and the harness yield point inside the source iterator
@@ -38,8 +38,8 @@ deriving Repr, DecidableEq, Inhabited
 
 /-- which "somebody has not woken up yet" test `_can_fetch` uses -/
 inductive GateRule where
-  | lowest    -- the code today: `len(heap) and any(x is not None and x <= lowest for x in waiting_for)`  (defect D6)
-  | hasMsg    -- candidate fix:  `any(x is not None and self._has_msg(x) for x in waiting_for)`
+  | lowest    -- the code before fb45a02 (defect D6): `len(heap) and any(x is not None and x <= lowest for x in waiting_for)`
+  | hasMsg    -- the code today: `any(x is not None and self._has_msg(x) for x in waiting_for)`
 deriving Repr, DecidableEq
 
 /-- the per-subscriber entries of `_subscribers_have_read`, `_subscriber_waiting_for`,
